@@ -41,6 +41,33 @@ def check_utility_ownership(ctx: CheckContext, p: Program, r: Resolver, cone: Li
         for st in body_nodes(f):
             if isinstance(st, ast.Assign) and len(st.targets) == 1 and isinstance(st.targets[0], ast.Name) and _is_deepcopy(r, f, st.value):
                 local_copies[st.targets[0].id] = st
+        # a local deep copy may be handed to exactly one collection, and not from inside a loop it was made outside of
+        def _loops_of(node):
+            out = []
+            def walk(cur, loops):
+                if cur is node:
+                    out.extend(loops)
+                    return True
+                for ch in ast.iter_child_nodes(cur):
+                    if isinstance(ch, (ast.FunctionDef, ast.AsyncFunctionDef, ast.ClassDef)):
+                        continue
+                    if walk(ch, loops + [cur] if isinstance(cur, (ast.For, ast.While)) else loops):
+                        return True
+                return False
+            walk(f.node, [])
+            return out
+        copy_uses: Dict[str, List[ast.AST]] = {}
+        for st in body_nodes(f):
+            if isinstance(st, ast.Call) and isinstance(st.func, ast.Attribute) and st.func.attr in ("add_many", "add", "replace") \
+                    and isinstance(st.func.value, ast.Attribute) and st.func.value.attr in UTILITY_PROPS and st.args and isinstance(st.args[0], ast.Name) \
+                    and st.args[0].id in local_copies:
+                copy_uses.setdefault(st.args[0].id, []).append(st)
+        shared_copy = set()
+        for cname, uses in copy_uses.items():
+            made_in = [id(x) for x in _loops_of(local_copies[cname])]
+            for u in uses:
+                if len(uses) > 1 or any(id(lp) not in made_in for lp in _loops_of(u)):
+                    shared_copy.add(id(u))
         for st in body_nodes(f):
             # insertion:  <zone>.hot_utilities.add_many(X) / .add(X)
             if isinstance(st, ast.Call) and isinstance(st.func, ast.Attribute) and st.func.attr in ("add_many", "add", "replace") \
@@ -56,7 +83,11 @@ def check_utility_ownership(ctx: CheckContext, p: Program, r: Resolver, cone: Li
                 ok = _is_deepcopy(r, f, a) or (isinstance(a, ast.Name) and a.id in local_copies
                                                and sum(1 for x in body_nodes(f) if isinstance(x, ast.Assign) and any(isinstance(t, ast.Name) and t.id == a.id for t in x.targets)) == 1)
                 why = ""
-                if not ok:
+                if ok and id(st) in shared_copy:
+                    ok = False
+                    why = (f"the one deep copy '{a.id}' is inserted into several zones' collections (or from inside a loop it was made outside of): "
+                           "those zones share utility objects")
+                if not ok and not why:
                     why = (f"{ast.unparse(st.func.value)} receives {ast.unparse(a)}, which is not a deep copy made here: "
                            "zones would share utility objects, so duties assigned in one zone appear in another")
                 ctx.ob(rule, f"{f.qualname}:{norm_stmt(st)}", f"{f.module.relpath}:{st.lineno}", ok, why)
